@@ -35,6 +35,42 @@ func checkC06(p *core.Program, r *core.Report) {
 	shipFns := p.FuncsOf("ship")
 	isDeliver := func(in ssa.Instruction) bool { return core.IsInvokeOf(in, mDeliver) }
 	isBufStore := func(in ssa.Instruction) bool { return core.IsFieldStore(in, fBuf) }
+	// bufferingCall: a call of a ship helper that stores into the buffer exactly once on each of its paths, the
+	// stored value being built from one of its parameters; returns the argument passed for that parameter
+	bufferingCall := func(in ssa.Instruction) (ssa.Value, bool) {
+		c, ok := in.(*ssa.Call)
+		if !ok {
+			return nil, false
+		}
+		t := c.Call.StaticCallee()
+		if t == nil || t.Blocks == nil || p.PkgShort(t) != "ship" {
+			return nil, false
+		}
+		mn, mx, complete := pathCount(t, func(y ssa.Instruction) int {
+			if isBufStore(y) {
+				return 1
+			}
+			return 0
+		})
+		if !complete || mn != 1 || mx != 1 {
+			return nil, false
+		}
+		var arg ssa.Value
+		core.EachInstr(t, func(y ssa.Instruction) {
+			if !isBufStore(y) {
+				return
+			}
+			_, _, v := core.StoredField(y)
+			for i, pa := range t.Params {
+				if i < len(c.Call.Args) && derivesFrom(v, pa, 8) {
+					if _, isBytes := pa.Type().Underlying().(*types.Slice); isBytes {
+						arg = c.Call.Args[i]
+					}
+				}
+			}
+		})
+		return arg, arg != nil
+	}
 	// parse call: result tuple whose first element is *model.ShipData
 	isParse := func(in ssa.Instruction) bool {
 		c, ok := in.(*ssa.Call)
@@ -100,6 +136,15 @@ func checkC06(p *core.Program, r *core.Report) {
 				}
 				if parse == nil || !derivesFrom(core.Common(it.In).Args[0], parse, 8) {
 					bad["deliver-provenance"] = "the delivered bytes are not the payload of the parsed envelope"
+				}
+			}
+			if arg, ok := bufferingCall(it.In); ok {
+				b++
+				if !(nilKnown && isNil) {
+					bad["buffer-guard"] = "a payload is buffered on a path that did not find the reader unset"
+				}
+				if parse == nil || !derivesFrom(arg, parse, 8) {
+					bad["buffer-provenance"] = "the buffered bytes are not the payload of the parsed envelope"
 				}
 			}
 			if isBufStore(it.In) {
@@ -375,6 +420,94 @@ func checkC06(p *core.Program, r *core.Report) {
 	r.Floor(R2, 6)
 
 	// ---- R3 (package ws)
+	checkOutgoingQueue(p, r, R3)
+
+	// ---- R4 via the automaton
+	if fr := getFSM(p, r, R4); fr != nil {
+		f := fr.f
+		for _, k := range sortedKeys(f.effects) {
+			e := f.effects[k]
+			if e.kind != "deliver" {
+				continue
+			}
+			noReader := false
+			for c := range e.cfgs {
+				if !c.reader {
+					noReader = true
+				}
+			}
+			key := "deliver in " + shortFn(e.fn)
+			if e.tag == "reader-field" && !noReader {
+				r.OK(R4, key, p.Pos(e.pos), "only through the installed reader")
+			} else {
+				r.Fail(R4, key, p.Pos(e.pos), "a payload can be delivered before the handshake installed the reader")
+			}
+		}
+		r.Floor(R4, 2)
+	}
+	// R5: the application's data writer hands every datagram to the transport queue
+	const R5 = "C06.R5 writer-always-enqueues"
+	r.Rule(R5, "from the entry of the data-writer method (ShipConnectionDataWriterInterface) every path reaches the transport enqueue, except on the error exits of the wire transform and on the transport's closed answer: the writer is handed to the application inside the setup callback, i.e. before the state says completed, so a state-dependent early return silently drops the application's first datagrams")
+	checkWriterEnqueues(p, r, R5)
+	r.Floor(R5, 1)
+
+}
+
+// checkWriterEnqueues (C06.R5).
+func checkWriterEnqueues(p *core.Program, r *core.Report, R5 string) {
+	mWrite := p.IfaceMethod("api", "ShipConnectionDataWriterInterface", "WriteShipMessageWithPayload")
+	mEnq := p.IfaceMethod("api", "WebsocketDataWriterInterface", "WriteMessageToWebsocketConnection")
+	mClosed := p.IfaceMethod("api", "WebsocketDataWriterInterface", "IsDataConnectionClosed")
+	if mWrite == nil || mEnq == nil || mClosed == nil {
+		r.Unresolved(R5, "api.ShipConnectionDataWriterInterface.WriteShipMessageWithPayload / WebsocketDataWriterInterface")
+		return
+	}
+	w := p.Method("ship", "ShipConnection", mWrite.Name())
+	if w == nil {
+		r.Unresolved(R5, "ship.ShipConnection."+mWrite.Name())
+		return
+	}
+	// allowed exits: a non-nil error of a preceding call, the closed answer of the transport
+	allowed := func(b *ssa.BasicBlock, idx int) bool {
+		i := core.BlockIf(b)
+		if i == nil {
+			return false
+		}
+		v, truth := core.Truth(i.Cond, idx)
+		if bo, ok := v.(*ssa.BinOp); ok && (bo.Op == token.EQL || bo.Op == token.NEQ) {
+			var other ssa.Value
+			if core.IsNilConst(bo.Y) {
+				other = bo.X
+			} else if core.IsNilConst(bo.X) {
+				other = bo.Y
+			}
+			if other != nil {
+				if _, isIface := other.Type().Underlying().(*types.Interface); isIface && types.TypeString(other.Type(), nil) == "error" {
+					return truth == (bo.Op == token.NEQ) // edge on which the error is set
+				}
+			}
+		}
+		if ex, ok := v.(*ssa.Extract); ok && truth {
+			if c, ok := ex.Tuple.(*ssa.Call); ok && core.IsInvokeOf(c, mClosed) && ex.Index == 0 {
+				return true
+			}
+		}
+		return false
+	}
+	must := core.NewMust(p, 3, func(in ssa.Instruction) bool { return core.IsInvokeOf(in, mEnq) })
+	must.Removed = allowed
+	key := "data writer " + shortFn(p.FnName(w)) + " reaches the transport enqueue"
+	if bad := core.MustPass(w, nil, must.Instr, allowed); bad != nil {
+		r.Fail(R5, key, p.Pos(bad.Pos()), "a path of the data-writer entry returns without handing the datagram to the transport, and not because of a transform error or a closed transport: datagrams the application writes (for instance from inside the setup callback, before the state is Complete) are silently dropped")
+	} else {
+		r.OK(R5, key, p.Pos(w.Pos()), "every path enqueues, apart from transform-error and closed-transport exits")
+	}
+}
+
+// checkOutgoingQueue: one consumer, started once, serialised producers, the consumer writes what it dequeued,
+// the enqueue select has only the send arm and the close escape. C06.R3; shared with C12.R7 (what the peer
+// receives is a gap-free prefix in acceptance order).
+func checkOutgoingQueue(p *core.Program, r *core.Report, R3 string) {
 	if a := findWS(p, r, R3); a != nil {
 		uses := a.chanUses(a.fns)
 		wli := core.AnalyzeLocks(a.fns, func(fn *ssa.Function) bool { return fn.Object() != nil && fn.Object().Exported() })
@@ -511,27 +644,4 @@ func checkC06(p *core.Program, r *core.Report) {
 		r.Floor(R3, 4)
 	}
 
-	// ---- R4 via the automaton
-	if fr := getFSM(p, r, R4); fr != nil {
-		f := fr.f
-		for _, k := range sortedKeys(f.effects) {
-			e := f.effects[k]
-			if e.kind != "deliver" {
-				continue
-			}
-			noReader := false
-			for c := range e.cfgs {
-				if !c.reader {
-					noReader = true
-				}
-			}
-			key := "deliver in " + shortFn(e.fn)
-			if e.tag == "reader-field" && !noReader {
-				r.OK(R4, key, p.Pos(e.pos), "only through the installed reader")
-			} else {
-				r.Fail(R4, key, p.Pos(e.pos), "a payload can be delivered before the handshake installed the reader")
-			}
-		}
-		r.Floor(R4, 2)
-	}
 }
